@@ -106,9 +106,11 @@ func (w *WaterMark) SetLastIndex(index uint64) {
 
 // WaitForMark waits until the given index is marked as done.
 func (w *WaterMark) WaitForMark(ctx context.Context, index uint64) error {
+	VerifYield("wm.wait.fast", index)
 	if w.DoneUntil() >= index {
 		return nil
 	}
+	VerifYield("wm.wait.lock", index)
 	w.mu.Lock()
 	if w.DoneUntil() >= index {
 		w.mu.Unlock()
@@ -121,6 +123,7 @@ func (w *WaterMark) WaitForMark(ctx context.Context, index uint64) error {
 	}
 	w.mu.Unlock()
 
+	VerifYield("wm.wait.park", index)
 	select {
 	case <-ctx.Done():
 		return ctx.Err()
@@ -203,10 +206,12 @@ func (w *WaterMark) notifyWaiters(prev, until uint64) {
 }
 
 func (w *WaterMark) ensureWindow(index uint64) *watermarkWindow {
+	VerifYield("wm.win.load", index)
 	win := w.loadWindow()
 	if index >= win.base && index < win.base+uint64(len(win.slots)) {
 		return win
 	}
+	VerifYield("wm.win.lock", index)
 	w.mu.Lock()
 	defer w.mu.Unlock()
 	win = w.loadWindow()
@@ -219,6 +224,7 @@ func (w *WaterMark) ensureWindow(index uint64) *watermarkWindow {
 
 // rebuildWindowLocked resizes the window; caller must hold w.mu.
 func (w *WaterMark) rebuildWindowLocked(index uint64, win *watermarkWindow) {
+	VerifYield("wm.rb.done", index)
 	done := w.DoneUntil()
 	newBase := done + 1
 	if index < newBase {
@@ -234,6 +240,7 @@ func (w *WaterMark) rebuildWindowLocked(index uint64, win *watermarkWindow) {
 	}
 	newSlots := make([]atomic.Int32, size)
 	for i := range win.slots {
+		VerifYield("wm.rb.copy", win.base+uint64(i))
 		count := win.slots[i].Load()
 		if count == 0 {
 			continue
@@ -248,6 +255,7 @@ func (w *WaterMark) rebuildWindowLocked(index uint64, win *watermarkWindow) {
 		}
 		newSlots[offset].Store(count)
 	}
+	VerifYield("wm.rb.store", newBase, uint64(size))
 	w.window.Store(&watermarkWindow{
 		base:  newBase,
 		slots: newSlots,
